@@ -10,7 +10,7 @@
    every operation with a non-negative amount, every sequence of operations of any length. *)
 Require Import Base Constants Fixed Curve Bank BankOps Risk TransferFee Handlers FixedLemmas BankLemmas LedgerLemmas SolvencyWorld HandlerWorld.
 Require Import TxConstants AcctLifecycle LifecycleLedger.
-Require Import PrivGen Deleverage PurgeLedger SolvencyHandlers DeleverageWorld.
+Require Import PrivGen Deleverage PurgeLedger SolvencyHandlers DeleverageWorld CloseBank.
 Local Open Scope Z_scope.
 
 (* the invariant holds after every sequence of operations (failed operations roll back) *)
@@ -103,6 +103,16 @@ Theorem C02_deleverage_tx_keeps_ledger :
   Forall dstep_ok steps -> HOk2 w -> dv_tx w c a r signs steps = Ok (w', c') -> HLedger w'.
 Proof. exact dv_tx_keeps_ledger. Qed.
 
+(* lending_pool_close_bank (asked as a yes / no question, h_close_bank_probe = its four guards): if it would succeed in a
+   world that satisfies the ledger invariant, the shares of ALL accounts in that bank add up to less than the dust
+   threshold on both sides (the totals are stored as i128, which is the range hypothesis) *)
+Theorem C02_close_bank_only_without_positions :
+  forall w b, HLedger w -> h_close_bank_probe w b = Ok tt ->
+  exists hb, nth_bank w b = Ok hb /\
+    (b_tas (hb_b hb) <= I128_MAX -> wsum (ca (bank_pk b)) (map ha_la (hw_accts w)) < ZERO_AMOUNT_THRESHOLD) /\
+    (b_tls (hb_b hb) <= I128_MAX -> wsum (cl (bank_pk b)) (map ha_la (hw_accts w)) < ZERO_AMOUNT_THRESHOLD).
+Proof. exact close_bank_only_without_positions. Qed.
+
 Theorem C02_initial_world :
   forall banks n now pf, Forall (fun b => wf_sv b /\ 0 <= b_tas b /\ 0 <= b_tls b) banks ->
   Ledger (mkBW banks (repeat la_empty n) now pf).
@@ -119,3 +129,4 @@ Print Assumptions C02_close_removes_only_empty_positions.
 Print Assumptions C02_purge_keeps_ledger.
 Print Assumptions C02_purge_effect_on_totals.
 Print Assumptions C02_deleverage_tx_keeps_ledger.
+Print Assumptions C02_close_bank_only_without_positions.
